@@ -351,11 +351,12 @@ inductive LockR (c : Cfg ε) (fA fB : Nat → String) : DState ε → DState ε 
 /-- the mirror invariant together with the identifier discipline of both instances. -/
 structure LockInvIds (c : Cfg ε) (fA fB : Nat → String) (a b : DState ε) : Prop where
   inv : LockInv c a b
-  idsA : IdInv c fA fB a.nextId b.nextId a
-  idsB : IdInv c fA fB a.nextId b.nextId b
+  idsA : IdInv c (Issued fA fB a.nextId b.nextId) a
+  idsB : IdInv c (Issued fA fB a.nextId b.nextId) b
 
 theorem LockInvIds.symm {c : Cfg ε} {fA fB : Nat → String} {a b : DState ε} (h : LockInvIds c fA fB a b) :
-    LockInvIds c fB fA b a := ⟨h.inv.symm, h.idsB.symm, h.idsA.symm⟩
+    LockInvIds c fB fA b a :=
+  ⟨h.inv.symm, h.idsB.mono (fun _ hi => hi.symm), h.idsA.mono (fun _ hi => hi.symm)⟩
 
 theorem lockInvIds_step (c : Cfg ε) (hc : c.caching = true) (hns : NoSing c) (hcw : CfgWF c) (f g : Nat → String)
     (G : Gens f g) (a b a' b' : DState ε) (e : ε) (nt nB : Notif ε) (ch : Bool) (h : LockInvIds c f g a b)
@@ -364,8 +365,14 @@ theorem lockInvIds_step (c : Cfg ε) (hc : c.caching = true) (hns : NoSing c) (h
     (room : Room c a nt) : LockInvIds c f g a' b' := by
   have hliveAll : ∀ ph pa id r, a.table.runAt ph pa id = some r → r.run.halted = false :=
     fun ph pa id r hr => h.inv.liveA ph pa id r (h.idsA.known ph pa id r hr) hr
-  obtain ⟨_, hmem, hsep, hfin, hidsA'⟩ := local_ids c hc hcw f g G a a' e nt ch b.nextId h.inv.wfA hliveAll h.idsA hA
-    room.evC room.evH
+  obtain ⟨hnextA, hmem, hsep, hfin, hidsA0⟩ := local_ids c hc hcw f G.injA (Issued f g a.nextId b.nextId) a a' e nt ch
+    h.inv.wfA hliveAll h.idsA (fun k hk => not_issued_fresh G a.nextId b.nextId k hk) hA room.evC room.evH
+  have hidsA' : IdInv c (Issued f g a'.nextId b.nextId) a' := by
+    refine hidsA0.mono ?_
+    intro id hi
+    rcases hi with hi | ⟨k, _, hk2, ek⟩
+    · exact hi.mono hnextA
+    · exact .inl ⟨k, hk2, ek⟩
   have hyg : Hygiene c a a' nt := ⟨room.evC, room.evH, hmem, hsep, hfin⟩
   have hinv' := lockInv_step c hc hns hcw f g a b a' b' e nt nB ch h.inv hA hB hyg
   obtain ⟨hnx, hfr⟩ := remote_frame ahead true (withIds c g) b b' _ _ _ nB hB
@@ -402,13 +409,130 @@ theorem split_stream_mirror_ids (c : Cfg ε) (hc : c.caching = true) (hns : NoSi
   | init =>
     have hnone : ∀ ph pa id (r : LRun ε), ({} : DState ε).table.runAt ph pa id = some r → False := by
       intro ph pa id r hr; simp [Table.runAt, Table.runsFrom, lookup] at hr
-    have hid : IdInv c fA fB 0 0 ({} : DState ε) :=
+    have hid : IdInv c (Issued fA fB 0 0) ({} : DState ε) :=
       ⟨fun ph pa id r hr => (hnone ph pa id r hr).elim, fun ph pa id r hr => (hnone ph pa id r hr).elim,
        fun id hm => by simp [inCache] at hm, fun ph pa _ _ id r _ hr _ => (hnone ph pa id r hr).elim,
        fun ph pa id r hr => (hnone ph pa id r hr).elim⟩
     exact ⟨⟨⟨fun _ _ _ _ => rfl, rfl, rfl⟩, wf_empty, wf_empty, fun ph pa id r _ hr => (hnone ph pa id r hr).elim⟩, hid, hid⟩
   | stepA _ hA hB room ih => exact lockInvIds_step c hc hns hcw fA fB G _ _ _ _ _ _ _ _ ih hA hB room
   | stepB _ hB hA room ih => exact (lockInvIds_step c hc hns hcw fB fA G.symm _ _ _ _ _ _ _ _ ih.symm hB hA room).symm
+
+/-! ### any number of instances -/
+
+theorem Mirror.refl (c : Cfg ε) (a : DState ε) : Mirror c a a := ⟨fun _ _ _ _ => rfl, rfl, rfl⟩
+
+theorem Mirror.trans {c : Cfg ε} {a b d : DState ε} (h1 : Mirror c a b) (h2 : Mirror c b d) : Mirror c a d :=
+  ⟨fun ph pa id hk => (h2.runs ph pa id hk).trans (h1.runs ph pa id hk), h2.memC.trans h1.memC, h2.memH.trans h1.memH⟩
+
+/-- the identifier generators of `n` instances never repeat and never collide. -/
+def GensN {n : Nat} (f : Fin n → Nat → String) : Prop := ∀ i j k l, f i k = f j l → i = j ∧ k = l
+
+/-- `id` has been handed out by some instance. -/
+def IssuedN {n : Nat} (f : Fin n → Nat → String) (node : Fin n → DState ε) (id : String) : Prop :=
+  ∃ i k, k < (node i).nextId ∧ id = f i k
+
+/-- lockstep execution of `n` instances over any assignment of the stream's events to instances: instance `i`
+runs `update()` on the event, every other instance applies the notification before the next input. -/
+inductive LockN (c : Cfg ε) {n : Nat} (f : Fin n → Nat → String) : (Fin n → DState ε) → Prop
+  | init : LockN c f (fun _ => {})
+  | step {node node' : Fin n → DState ε} {i : Fin n} {e : ε} {nt : Notif ε} {ch : Bool} (h : LockN c f node)
+      (hA : localStep (withIds c (f i)) (node i) e = some (node' i, nt, ch))
+      (hB : ∀ j, j ≠ i → ∃ nB, remoteStep (withIds c (f j)) (node j) nt.completed nt.halted nt.updated = some (node' j, nB))
+      (room : Room c (node i) nt) : LockN c f node'
+
+structure LockInvN (c : Cfg ε) {n : Nat} (f : Fin n → Nat → String) (node : Fin n → DState ε) : Prop where
+  mirror : ∀ i j, Mirror c (node i) (node j)
+  wf : ∀ i, TableWF (node i).table
+  live : ∀ i ph pa id r, (c.getPattern ph pa).isSome = true → (node i).table.runAt ph pa id = some r →
+    r.run.halted = false
+  ids : ∀ i, IdInv c (IssuedN f node) (node i)
+
+/-- **every assignment of every stream to any number of instances keeps all of them identical.**  The
+`n`-instance form of `split_stream_mirror_ids`: after every input, all instances hold under every key exactly
+the same run (identifier, index, history content) and the same finished-run memories; so any proper subset of
+them can be lost at any point and every survivor already holds every partially completed run.  Assumptions:
+non-singleton rules with unique names, collision-free identifier generators, room in the finished-run memory. -/
+theorem split_stream_mirror_n (c : Cfg ε) (hc : c.caching = true) (hns : NoSing c) (hcw : CfgWF c) {n : Nat}
+    (f : Fin n → Nat → String) (G : GensN f) (node : Fin n → DState ε) (h : LockN c f node) : LockInvN c f node := by
+  induction h with
+  | init =>
+    have hnone : ∀ ph pa id (r : LRun ε), ({} : DState ε).table.runAt ph pa id = some r → False := by
+      intro ph pa id r hr; simp [Table.runAt, Table.runsFrom, lookup] at hr
+    exact ⟨fun _ _ => Mirror.refl c _, fun _ => wf_empty, fun _ ph pa id r _ hr => (hnone ph pa id r hr).elim,
+      fun _ => ⟨fun ph pa id r hr => (hnone ph pa id r hr).elim, fun ph pa id r hr => (hnone ph pa id r hr).elim,
+        fun id hm => by simp [inCache] at hm, fun ph pa _ _ id r _ hr _ => (hnone ph pa id r hr).elim,
+        fun ph pa id r hr => (hnone ph pa id r hr).elim⟩⟩
+  | @step node node' i e nt ch _ hA hB room ih =>
+    have injI : ∀ k l, f i k = f i l → k = l := fun k l hkl => (G i i k l hkl).2
+    have hliveAll : ∀ ph pa id r, (node i).table.runAt ph pa id = some r → r.run.halted = false :=
+      fun ph pa id r hr => ih.live i ph pa id r ((ih.ids i).known ph pa id r hr) hr
+    have hfr : ∀ k, (node i).nextId ≤ k → ¬ IssuedN f node (f i k) := by
+      rintro k hk ⟨i', k', hk', e'⟩
+      obtain ⟨e1, e2⟩ := G i i' k k' e'
+      subst e1 e2; omega
+    obtain ⟨hnextI, hmem, hsep, hfin, hidsI0⟩ := local_ids c hc hcw (f i) injI (IssuedN f node) (node i) (node' i) e nt ch
+      (ih.wf i) hliveAll (ih.ids i) hfr hA room.evC room.evH
+    have hyg : Hygiene c (node i) (node' i) nt := ⟨room.evC, room.evH, hmem, hsep, hfin⟩
+    -- each replica against the originator
+    have hpair : ∀ j, j ≠ i → LockInv c (node' i) (node' j) ∧ (node' j).nextId = (node j).nextId ∧
+        (∀ ph pa id, c.getPattern ph pa = none → (node' j).table.runAt ph pa id = (node j).table.runAt ph pa id) := by
+      intro j hj
+      obtain ⟨nB, hBj⟩ := hB j hj
+      have hl : LockInv c (node i) (node j) := ⟨ih.mirror i j, ih.wf i, ih.wf j, ih.live i⟩
+      obtain ⟨hnx, hfr'⟩ := remote_frame ahead true (withIds c (f j)) (node j) (node' j) _ _ _ nB hBj
+      exact ⟨lockInv_step c hc hns hcw (f i) (f j) (node i) (node j) (node' i) (node' j) e nt nB ch hl hA hBj hyg, hnx, hfr'⟩
+    have hwfI : TableWF (node' i).table :=
+      (local_is_join (withIds c (f i)) hc (node i) (node' i) e nt ch (ih.wf i) hA room.evC room.evH).1
+    have hliveI : ∀ ph pa id r, (c.getPattern ph pa).isSome = true → (node' i).table.runAt ph pa id = some r →
+        r.run.halted = false := fun ph pa id r hk hr =>
+      local_live (withIds c (f i)) (node i) (node' i) e nt ch (ih.wf i) hA ph pa id (fun r0 => ih.live i ph pa id r0 hk) r hr
+    -- issued identifiers only grow
+    have hissMono : ∀ id, (IssuedN f node id ∨ ∃ k, (node i).nextId ≤ k ∧ k < (node' i).nextId ∧ id = f i k) →
+        IssuedN f node' id := by
+      rintro id (⟨i', k', hk', e'⟩ | ⟨k, _, hk2, ek⟩)
+      · refine ⟨i', k', ?_, e'⟩
+        by_cases hi' : i' = i
+        · subst hi'; omega
+        · rw [(hpair i' hi').2.1]; exact hk'
+      · exact ⟨i, k, hk2, ek⟩
+    have hidsI : IdInv c (IssuedN f node') (node' i) := hidsI0.mono hissMono
+    have hmirI : ∀ j, Mirror c (node' i) (node' j) := by
+      intro j
+      by_cases hj : j = i
+      · subst hj; exact Mirror.refl c _
+      · exact (hpair j hj).1.mirror
+    refine ⟨fun a b => (hmirI a).symm.trans (hmirI b), ?_, ?_, ?_⟩
+    · intro j
+      by_cases hj : j = i
+      · subst hj; exact hwfI
+      · exact (hpair j hj).1.wfB
+    · intro j
+      by_cases hj : j = i
+      · subst hj; exact hliveI
+      · exact (hpair j hj).1.liveB
+    · intro j
+      by_cases hj : j = i
+      · subst hj; exact hidsI
+      · obtain ⟨hinvJ, _, hfrJ⟩ := hpair j hj
+        have hknownJ : ∀ ph pa id r, (node' j).table.runAt ph pa id = some r → (c.getPattern ph pa).isSome = true := by
+          intro ph pa id r hr
+          cases hp : c.getPattern ph pa with
+          | some p => rfl
+          | none =>
+            rw [hfrJ ph pa id hp] at hr
+            have := (ih.ids j).known ph pa id r hr
+            rw [hp] at this; exact this
+        have toI : ∀ ph pa id r, (node' j).table.runAt ph pa id = some r → (node' i).table.runAt ph pa id = some r := by
+          intro ph pa id r hr
+          rw [← hinvJ.mirror.runs ph pa id (hknownJ ph pa id r hr)]; exact hr
+        refine ⟨hknownJ, fun ph pa id r hr => hidsI.tbl ph pa id r (toI ph pa id r hr), ?_,
+          fun ph pa ph' pa' id r r' hr hr' => hidsI.uniq ph pa ph' pa' id r r' (toI _ _ _ r hr) (toI _ _ _ r' hr'), ?_⟩
+        · intro id hm
+          rw [hinvJ.mirror.memC, hinvJ.mirror.memH] at hm
+          exact hidsI.mem id hm
+        · intro ph pa id r hr
+          rw [hinvJ.mirror.memC, hinvJ.mirror.memH]
+          exact hidsI.fresh ph pa id r (toI _ _ _ r hr)
 
 /-! non-vacuity of `replica_mirrors_runs`: a concrete two-pattern configuration and a step that halts one run and starts another -/
 section example_
